@@ -1124,7 +1124,6 @@ impl Parser<'_, '_> {
 
         let start_span = self.take(Token::FStringStart)?;
 
-        // TODO: we need to properly unescape the `{{` and `}}`
         while let Some((part, span)) = self.lexer.f_string_part() {
             let (FStringToken::StringEnd(s)
             | FStringToken::StringIntermediate(s)) = &part;
@@ -1135,8 +1134,7 @@ impl Parser<'_, '_> {
                     start: span.start,
                     end: span.end,
                 };
-                let s = unescape_str(s, span)?;
-                let s = s.replace("{{", "{").replace("}}", "}");
+                let s = unescape_f_string_part(s, span)?;
                 parts.push(self.spans.add(span, FStringPart::String(s)));
             }
 
@@ -1172,6 +1170,55 @@ impl Parser<'_, '_> {
 fn unescape_char(s: &str, span: Span) -> ParseResult<char> {
     rustc_literal_escaper::unescape_char(s)
         .map_err(|e| ParseError::escape(&e, span).into())
+}
+
+/// Unescape the text of one part of an f-string
+///
+/// In an f-string, `{{` and `}}` stand for a literal `{` and `}`. They are
+/// resolved on the source text and the pieces in between are unescaped like
+/// a normal string, so that an escaped brace (e.g. `\x7b`) is never taken for
+/// one half of a `{{`.
+fn unescape_f_string_part(s: &str, span: Span) -> ParseResult<String> {
+    let mut unescaped = String::new();
+    let mut piece_start = 0;
+
+    let mut chars = s.char_indices().peekable();
+    while let Some((i, c)) = chars.next() {
+        match c {
+            '\\' => {
+                // Skip the escape sequence; the braces of `\u{...}` are not
+                // brace escapes.
+                if let Some((_, 'u')) = chars.next()
+                    && let Some((_, '{')) = chars.peek()
+                {
+                    for (_, c) in chars.by_ref() {
+                        if c == '}' {
+                            break;
+                        }
+                    }
+                }
+            }
+            '{' | '}' if chars.peek().is_some_and(|(_, d)| *d == c) => {
+                chars.next();
+                let piece_span = Span {
+                    start: span.start + piece_start,
+                    ..span
+                };
+                unescaped
+                    .push_str(&unescape_str(&s[piece_start..i], piece_span)?);
+                unescaped.push(c);
+                piece_start = i + 2;
+            }
+            _ => {}
+        }
+    }
+
+    let piece_span = Span {
+        start: span.start + piece_start,
+        ..span
+    };
+    unescaped.push_str(&unescape_str(&s[piece_start..], piece_span)?);
+    Ok(unescaped)
 }
 
 fn unescape_str(s: &str, span: Span) -> ParseResult<String> {
